@@ -116,10 +116,12 @@ def confuse(tape, model):
         cur.name = wn
         cur.__dict__.pop('args', None)
 
+    # a reference to a name that exists nowhere can never compile: the caller may demand a refusal
+    sure = '!' if wk in ('unknown', 'unknown-namespace') else ''
     if kind in ('field-type', 'tag-type', 'alias-type'):
         target = x if kind != 'alias-type' else d
         set_ref(target.type)
-        return '%s of %s.%s -> %s %r' % (kind, d.name, getattr(x, 'name', ''), wk, wn)
+        return sure + '%s of %s.%s -> %s %r' % (kind, d.name, getattr(x, 'name', ''), wk, wn)
     if kind == 'field-default':
         how = t.draw(4)
         if how == 0:
@@ -134,10 +136,10 @@ def confuse(tape, model):
         return 'default of %s.%s -> %r' % (d.name, x.name, x.default)
     if kind == 'field-ann':
         x.anns[t.draw(len(x.anns))] = (n.name, wn)
-        return 'annotation on %s.%s -> %s %r' % (d.name, x.name, wk, wn)
+        return sure + 'annotation on %s.%s -> %s %r' % (d.name, x.name, wk, wn)
     if kind in ('struct-parent', 'union-parent'):
         d.parent = (n.name, wn if t.chance(80) else d.name)
-        return '%s of %s -> %r' % (kind, d.name, d.parent[1])
+        return (sure if d.parent[1] == wn else '') + '%s of %s -> %r' % (kind, d.name, d.parent[1])
     if kind == 'subtype-entry':
         i = t.draw(len(d.subtypes['tags']))
         tag, ref = d.subtypes['tags'][i]
@@ -173,7 +175,7 @@ def confuse(tape, model):
     if kind == 'route-io':
         which = t.choice(['arg', 'result', 'error'])
         setattr(d, which, T('ref', ns=n.name, name=wn))
-        return 'route %s %s -> %s %r' % (d.name, which, wk, wn)
+        return sure + 'route %s %s -> %s %r' % (d.name, which, wk, wn)
     if kind == 'route-deprecated-by':
         d.deprecated = (wn if t.chance(70) else d.deprecated[0], t.choice([1, 9, d.version]))
         return 'route %s deprecated by -> %r' % (d.name, d.deprecated)
